@@ -1,7 +1,7 @@
 (** Proofs about Model/Gzip.v: the gzip response writer simulates the bare recorder
     (the inner handler writing to the ResponseWriter directly) for every sequence of
     calls; all C17 clauses are projections of that simulation. *)
-From Coq Require Import String List NArith Bool Lia.
+From Coq Require Import String List NArith Bool Lia PeanoNat.
 From Fabio Require Import Lib.Bytes Model.Gzip.
 Import ListNotations.
 Local Open Scope N_scope.
@@ -114,22 +114,23 @@ Qed.
 Section Sim.
 Variable sniff : str -> str.
 Variable ctm : str -> bool.
+(* [x = true]: the relation that holds for EVERY call sequence (a sniffed Content-Type is tolerated);
+   [x = false]: the exact one, valid outside the sniffing region *)
+Variable x : bool.
 
-Notation rec_write := (rec_write sniff).
-Notation rec_step := (rec_step sniff).
-Notation rec_run := (rec_run sniff).
 Notation grw_write := (grw_write sniff ctm).
 Notation grw_write_header := (grw_write_header ctm).
 Notation grw_decide_write_header := (grw_decide_write_header ctm).
 Notation grw_step := (grw_step sniff ctm).
 Notation grw_run := (grw_run sniff ctm).
 Notation is_compressable := (is_compressable ctm).
+Notation finish_hdr := (finish_hdr sniff).
 
 Ltac rsimp := cbn [g_sel g_fed g_panic g_rec r_wrote r_hdr r_code r_snap r_body r_info].
 
 (* Content-Type: the upstream's, or -- when it has none -- a sniffed one *)
 Definition ct_rel (sg sb : hdr) : Prop :=
-  hvals sg H_CT = hvals sb H_CT \/ (hvals sb H_CT = None /\ exists b, hvals sg H_CT = Some [sniff b]).
+  hvals sg H_CT = hvals sb H_CT \/ (x = true /\ hvals sb H_CT = None /\ exists b, hvals sg H_CT = Some [sniff b]).
 
 Definition snap_plain (sg sb : hdr) : Prop := hdr_rel [H_CT] sg sb /\ ct_rel sg sb.
 
@@ -207,22 +208,23 @@ Proof. intros H. unfold Gzip.rec_write. cbv zeta. rewrite H. rewrite H. reflexiv
 
 Lemma rec_write_unwrote b r : r_wrote r = false ->
   rec_write b r =
-  let r1 := rec_write_header 200
-              (match hvals (r_hdr r) H_CT with
-               | None => if beq (hget (r_hdr r) H_TE) []
-                         then rec_upd (fun h => hset h H_CT (sniff b)) r else r
-               | Some _ => r end) in
+  let r1 := rec_write_header 200 r in
   mkR (r_hdr r1) (r_wrote r1) (r_code r1) (r_snap r1) (r_body r1 ++ b) (r_info r1).
 Proof.
   intros H. unfold Gzip.rec_write, rec_write_header. cbv zeta. rewrite H.
-  change (is_1xx 200) with false. cbv iota.
-  destruct (hvals (r_hdr r) H_CT); [|destruct (beq (hget (r_hdr r) H_TE) [])];
-    unfold rec_upd; rsimp; rewrite H; reflexivity.
+  change (is_1xx 200) with false. cbv iota. reflexivity.
 Qed.
 
-Lemma sim_step o g rb : sim g rb -> sim (grw_step o g) (rec_step o rb).
+(* the one step that sets a header the upstream did not: Write on an undecided writer without Content-Type *)
+Definition bad_step (o : op) (g : grw) : bool :=
+  match o, g_sel g with
+  | Write _, None => match hvals (r_hdr (g_rec g)) H_CT with None => true | Some _ => false end
+  | _, _ => false
+  end.
+
+Lemma sim_step o g rb : sim g rb -> (x = false -> bad_step o g = false) -> sim (grw_step o g) (rec_step o rb).
 Proof.
-  intros (Hp & Hc & Hi & H).
+  intros (Hp & Hc & Hi & H) Hbad.
   destruct g as [sel fed pan rg]. rsimp. cbn [g_sel g_fed g_panic g_rec] in *. subst pan.
   destruct o as [k v|k v|k| |c|b].
   1-4: (unfold Gzip.grw_step, Gzip.rec_step, sim, rec_upd; rsimp;
@@ -263,35 +265,30 @@ Proof.
       set (rg' := match hvals (r_hdr rg) H_CT with
                   | None => rec_upd (fun h => hset h H_CT (sniff b)) rg
                   | Some _ => rg end).
-      set (rb' := match hvals (r_hdr rb) H_CT with
-                  | None => if beq (hget (r_hdr rb) H_TE) []
-                            then rec_upd (fun h => hset h H_CT (sniff b)) rb else rb
-                  | Some _ => rb end).
-      assert (Hpre : r_wrote rg' = false /\ r_wrote rb' = false /\ r_body rg' = [] /\ r_body rb' = []
-                     /\ r_code rg' = r_code rb' /\ info_rel (r_info rg') (r_info rb')
-                     /\ hdr_rel [H_CT] (r_hdr rg') (r_hdr rb') /\ ct_rel (r_hdr rg') (r_hdr rb')).
+      assert (Hpre : r_wrote rg' = false /\ r_wrote rb = false /\ r_body rg' = [] /\ r_body rb = []
+                     /\ r_code rg' = r_code rb /\ info_rel (r_info rg') (r_info rb)
+                     /\ hdr_rel [H_CT] (r_hdr rg') (r_hdr rb) /\ ct_rel (r_hdr rg') (r_hdr rb)).
       { assert (Hct : hvals (r_hdr rg) H_CT = hvals (r_hdr rb) H_CT)
           by (apply (proj1 H6); [intros []|apply CT_ne_VARY]).
-        subst rg' rb'. rewrite <- Hct.
+        subst rg'.
         destruct (hvals (r_hdr rg) H_CT) eqn:Eg.
         - destruct (rel_to_plain _ _ H6) as [Ra Rb].
           repeat (split; [assumption|]); assumption.
-        - destruct (beq (hget (r_hdr rb) H_TE) []).
-          + unfold rec_upd. rsimp.
-            destruct (rel_to_plain _ _ (hdr_rel_op (SetHeader H_CT (sniff b)) _ _ H6)) as [Ra Rb].
-            cbn [hdr_op] in Ra, Rb.
-            repeat (split; [assumption|]); assumption.
-          + unfold rec_upd. rsimp.
-            repeat (split; [assumption|]). split; [split|].
-            * intros k Hk Hv. rewrite hvals_hset. rewrite beq_false_ne.
-              -- apply (proj1 H6); [intros []|exact Hv].
-              -- intro E. apply Hk. left. exact E.
-            * rewrite hvals_hset, (beq_false_ne H_CT H_VARY CT_ne_VARY). apply (proj2 H6).
-            * right. split; [congruence|]. exists b. rewrite hvals_hset, beq_refl. reflexivity. }
+        - assert (Hx : x = true).
+          { destruct (Bool.bool_dec x true) as [E|E]; [exact E|exfalso].
+            apply Bool.not_true_is_false in E. specialize (Hbad E).
+            unfold bad_step in Hbad. cbn [g_sel g_rec] in Hbad. rewrite Eg in Hbad. discriminate. }
+          unfold rec_upd. rsimp.
+          repeat (split; [assumption|]). split; [split|].
+          * intros k Hk Hv. rewrite hvals_hset. rewrite beq_false_ne.
+            -- apply (proj1 H6); [intros []|exact Hv].
+            -- intro E. apply Hk. left. exact E.
+          * rewrite hvals_hset, (beq_false_ne H_CT H_VARY CT_ne_VARY). apply (proj2 H6).
+          * right. split; [exact Hx|]. split; [congruence|]. exists b. rewrite hvals_hset, beq_refl. reflexivity. }
       destruct Hpre as (Pa & Pb & Pc & Pd & Pe & Pi & Pf & Pg).
-      pose proof (sim_decide 200 fed rg' rb' eq_refl Pa Pb Pc Pd Pi Pf Pg H1) as HS.
+      pose proof (sim_decide 200 fed rg' rb eq_refl Pa Pb Pc Pd Pi Pf Pg H1) as HS.
       unfold Gzip.grw_write, grw_write_with. rsimp.
-      rewrite (rec_write_unwrote b rb H3). cbv zeta. fold rg' rb'.
+      rewrite (rec_write_unwrote b rb H3). cbv zeta. fold rg'.
       change (Gzip.grw_write_header ctm 200) with (grw_decide_write_header 200).
       destruct HS as (S1 & S2 & Si & S3).
       destruct (g_sel (grw_decide_write_header 200 (mkG None fed false rg'))) as [[|]|] eqn:Es.
@@ -304,10 +301,44 @@ Proof.
         destruct (is_compressable (r_hdr rg')); cbn [g_sel] in Es; discriminate.
 Qed.
 
-Lemma sim_run ops : forall g rb, sim g rb -> sim (grw_run ops g) (rec_run ops rb).
+(* outside the sniffing region: no [bad_step] will happen *)
+Definition scan_ok (g : grw) (rb : rcd) (ops : list op) : Prop :=
+  x = false -> g_sel g = None -> implicit_no_ct (r_hdr rb) ops = false.
+
+Lemma sim_run ops : forall g rb, sim g rb -> scan_ok g rb ops -> sim (grw_run ops g) (rec_run ops rb).
 Proof.
-  induction ops as [|o ops IH]; intros g rb H; [exact H|].
-  unfold Gzip.grw_run, Gzip.rec_run. cbn [fold_left]. apply IH. apply sim_step. exact H.
+  induction ops as [|o ops IH]; intros g rb H Hs; [exact H|].
+  unfold Gzip.grw_run, Gzip.rec_run. cbn [fold_left]. apply IH.
+  - apply sim_step; [exact H|]. intros Hx. unfold bad_step.
+    destruct o as [k v|k v|k| |c|b]; try reflexivity.
+    destruct (g_sel g) eqn:Eg; [reflexivity|].
+    specialize (Hs Hx Eg). cbn [implicit_no_ct] in Hs.
+    destruct H as (_ & _ & _ & H). rewrite Eg in H. destruct H as (_ & _ & _ & _ & _ & H6).
+    rewrite (proj1 H6 H_CT); [exact Hs|intros []|apply CT_ne_VARY].
+  - intros Hx Hn.
+    destruct (g_sel g) as [sb|] eqn:Eg.
+    { (* a decided writer stays decided *)
+      exfalso. destruct g as [sel fed pan rg]. cbn [g_sel] in Eg. subst sel.
+      destruct o as [k v|k v|k| |c|b]; unfold Gzip.grw_step in Hn; cbn [g_sel] in Hn; try discriminate.
+      - unfold Gzip.grw_write_header, Gzip.grw_decide_write_header in Hn.
+        destruct (is_1xx c); cbn [g_sel] in Hn; discriminate.
+      - unfold Gzip.grw_write, grw_write_with in Hn. cbn [g_sel] in Hn.
+        destruct sb; cbn [g_sel] in Hn; discriminate. }
+    specialize (Hs Hx Eg).
+    destruct H as (_ & _ & _ & H). rewrite Eg in H. destruct H as (_ & _ & Hwb & _).
+    destruct o as [k v|k v|k| |c|b]; cbn [implicit_no_ct] in Hs;
+      try (unfold Gzip.rec_step, rec_upd; cbn [r_hdr]; exact Hs).
+    + unfold Gzip.rec_step, rec_write_header. rewrite Hwb.
+      destruct (is_1xx c) eqn:Ec; cbn [r_hdr]; [exact Hs|].
+      exfalso. destruct g as [sel fed pan rg]. cbn [g_sel] in Eg. subst sel.
+      unfold Gzip.grw_step, Gzip.grw_write_header in Hn. rewrite Ec in Hn.
+      unfold Gzip.grw_decide_write_header in Hn. cbn [g_sel g_fed g_panic g_rec] in Hn.
+      destruct (is_compressable (r_hdr rg)); cbn [g_sel] in Hn; discriminate.
+    + exfalso. destruct g as [sel fed pan rg]. cbn [g_sel] in Eg. subst sel.
+      unfold Gzip.grw_step, Gzip.grw_write, grw_write_with in Hn. cbn [g_sel g_fed g_panic g_rec] in Hn.
+      change (Gzip.grw_write_header ctm 200) with (grw_decide_write_header 200) in Hn.
+      unfold Gzip.grw_decide_write_header in Hn. cbn [g_sel g_fed g_panic g_rec] in Hn.
+      destruct (is_compressable _); cbn [g_sel] in Hn; discriminate.
 Qed.
 
 Lemma sim_init h0 : sim (mkG None [] false (rec_new (hadd h0 H_VARY H_AE))) (rec_new h0).
@@ -333,17 +364,8 @@ Proof.
   - unfold Gzip.rec_step, rec_write_header, rsim. rsimp.
     destruct wa; rsimp; [repeat split; auto; apply Hh|].
     destruct (is_1xx c); rsimp; repeat split; auto; try apply Hh. apply info_rel_snoc; assumption.
-  - unfold Gzip.rec_step, Gzip.rec_write, rec_upd, rsim. rsimp.
-    destruct wa; rsimp; [repeat split; auto; apply Hh|].
-    assert (Hct : hvals ha H_CT = hvals hb H_CT) by (apply (proj1 Hh); [intros []|apply CT_ne_VARY]).
-    assert (Hte : hget ha H_TE = hget hb H_TE)
-      by (apply hget_congr, (proj1 Hh); [intros []|apply TE_ne_VARY]).
-    rewrite <- Hct, <- Hte.
-    destruct (hvals ha H_CT); rsimp.
-    + repeat split; auto; apply Hh.
-    + destruct (beq (hget ha H_TE) []); rsimp.
-      * repeat split; auto; apply (hdr_rel_op (SetHeader H_CT (sniff b)) _ _ Hh).
-      * repeat split; auto; apply Hh.
+  - unfold Gzip.rec_step, Gzip.rec_write, rsim. rsimp.
+    destruct wa; rsimp; repeat split; auto; apply Hh.
 Qed.
 
 Lemma rsim_run ops : forall ra rb, rsim ra rb -> rsim (rec_run ops ra) (rec_run ops rb).
@@ -359,10 +381,7 @@ Proof.
   destruct o; unfold Gzip.rec_step, rec_upd, rec_write_header, Gzip.rec_write;
     cbn [r_body]; try (rewrite app_nil_r; reflexivity).
   - destruct (r_wrote r); [|destruct (is_1xx c)]; cbn [r_body]; rewrite app_nil_r; reflexivity.
-  - destruct (r_wrote r); cbn [r_body]; [reflexivity|].
-    unfold rec_upd.
-    destruct (hvals (r_hdr r) H_CT); [|destruct (beq (hget (r_hdr r) H_TE) [])];
-      cbn [r_wrote r_body]; reflexivity.
+  - destruct (r_wrote r); cbn [r_body]; reflexivity.
 Qed.
 
 Lemma rec_run_body ops : forall r, r_body (rec_run ops r) = r_body r ++ written ops.
@@ -372,36 +391,139 @@ Proof.
   - fold (rec_run ops (rec_step o r)). rewrite IH, rec_step_body, <- app_assoc. reflexivity.
 Qed.
 
+(* ---------- the server's sniffing when the response is finished ---------- *)
+Lemma finish_other h b k : k <> H_CT -> hvals (finish_hdr h b) k = hvals h k.
+Proof.
+  intros Hk. unfold Gzip.finish_hdr. destruct (hvals h H_CT); [reflexivity|].
+  destruct (beq (hget h H_TE) [] && beq (hget h H_CE) [] && negb (beq b [])); [|reflexivity].
+  rewrite hvals_hset, beq_false_ne; auto.
+Qed.
+
+Lemma finish_some h b v : hvals h H_CT = Some v -> finish_hdr h b = h.
+Proof. intros H. unfold Gzip.finish_hdr. rewrite H. reflexivity. Qed.
+
+Lemma finish_nil h : finish_hdr h [] = h.
+Proof.
+  unfold Gzip.finish_hdr. destruct (hvals h H_CT); [reflexivity|].
+  change (negb (beq [] [])) with false. rewrite andb_false_r. reflexivity.
+Qed.
+
+Lemma hdr_rel_finish ex hg hb bg bb : In H_CT ex ->
+  hdr_rel ex hg hb -> hdr_rel ex (finish_hdr hg bg) (finish_hdr hb bb).
+Proof.
+  intros Hin [H1 H2]. split.
+  - intros k Hk Hv. rewrite !finish_other by (intro E; apply Hk; subst k; exact Hin). auto.
+  - rewrite !finish_other by (apply not_eq_sym, CT_ne_VARY). exact H2.
+Qed.
+
+(* same Content-Type, Transfer-Encoding, Content-Encoding and body: the server sniffs on both sides or on neither *)
+Lemma finish_ct_eq hg hb b :
+  hvals hg H_CT = hvals hb H_CT -> hget hg H_TE = hget hb H_TE -> hget hg H_CE = hget hb H_CE ->
+  hvals (finish_hdr hg b) H_CT = hvals (finish_hdr hb b) H_CT.
+Proof.
+  intros E Et Ec. unfold Gzip.finish_hdr. rewrite E, Et, Ec.
+  destruct (hvals hb H_CT) eqn:Eb; [congruence|].
+  destruct (beq (hget hb H_TE) [] && beq (hget hb H_CE) [] && negb (beq b [])); [|congruence].
+  rewrite !hvals_hset, beq_refl. reflexivity.
+Qed.
+
+Lemma hdr_rel_finish_exact hg hb b : hdr_rel [] hg hb -> hdr_rel [] (finish_hdr hg b) (finish_hdr hb b).
+Proof.
+  intros [H1 H2]. split.
+  - intros k _ Hv. destruct (beq H_CT k) eqn:E.
+    + apply beq_eq in E; subst k. apply finish_ct_eq.
+      * apply H1; [intros []|exact Hv].
+      * apply hget_congr, H1; [intros []|apply TE_ne_VARY].
+      * apply hget_congr, H1; [intros []|apply CE_ne_VARY].
+    + apply beq_neq in E. rewrite !finish_other by (apply not_eq_sym; exact E). apply H1; [intros []|exact Hv].
+  - rewrite !finish_other by (apply not_eq_sym, CT_ne_VARY). exact H2.
+Qed.
+
 (* ---------- the final relation between the handler's response and the upstream's ---------- *)
+(* Content-Type of the finished responses: the upstream's; or (every call sequence, [x = true]) one
+   sniffed by the handler; or (compressed only) none where net/http alone would have sniffed one *)
+Definition ct_res (gzp : bool) (hr hu : hdr) : Prop :=
+  hvals hr H_CT = hvals hu H_CT
+  \/ (x = true /\ exists b, hvals hr H_CT = Some [sniff b])
+  \/ (gzp = true /\ hvals hr H_CT = None).
+
 Definition res_rel (res up : result) : Prop :=
   o_code res = o_code up /\ o_panic res = false /\ info_rel (o_info res) (o_info up) /\
   match o_fed res with
   | None => o_plain res = o_plain up
-            /\ hdr_rel [H_CT] (o_hdr res) (o_hdr up) /\ ct_rel (o_hdr res) (o_hdr up)
+            /\ hdr_rel [H_CT] (o_hdr res) (o_hdr up) /\ ct_res false (o_hdr res) (o_hdr up)
   | Some f => o_plain res = [] /\ f = o_plain up
-              /\ hdr_rel [H_CT; H_CE; H_CL] (o_hdr res) (o_hdr up) /\ ct_rel (o_hdr res) (o_hdr up)
+              /\ hdr_rel [H_CT; H_CE; H_CL] (o_hdr res) (o_hdr up) /\ ct_res true (o_hdr res) (o_hdr up)
               /\ hvals (o_hdr res) H_CE = Some [GZIP] /\ hvals (o_hdr res) H_CL = None
               /\ hget (o_hdr up) H_CE = [] /\ ctm (hget (o_hdr res) H_CT) = true
   end.
 
+Lemma finish_plain sg sb b : snap_plain sg sb ->
+  hdr_rel [H_CT] (finish_hdr sg b) (finish_hdr sb b) /\ ct_res false (finish_hdr sg b) (finish_hdr sb b).
+Proof.
+  intros [Hr Hc]. split; [apply hdr_rel_finish; [left; reflexivity|exact Hr]|].
+  destruct Hc as [E|(Hx & Hn & bb & Es)].
+  - left. apply finish_ct_eq; [exact E| |]; apply hget_congr, (proj1 Hr).
+    + cbn [In]. intros [F|[]]. symmetry in F. exact (TE_ne_CT F).
+    + apply TE_ne_VARY.
+    + cbn [In]. intros [F|[]]. symmetry in F. exact (CE_ne_CT F).
+    + apply CE_ne_VARY.
+  - right. left. split; [exact Hx|]. exists bb. rewrite (finish_some _ _ _ Es). exact Es.
+Qed.
+
+Lemma finish_gzip sg sb b : snap_gzip sg sb ->
+  hdr_rel [H_CT; H_CE; H_CL] sg (finish_hdr sb b) /\ ct_res true sg (finish_hdr sb b)
+  /\ hget (finish_hdr sb b) H_CE = [].
+Proof.
+  intros (Hr & Hc & _ & _ & Hce & _). split; [|split].
+  - rewrite <- (finish_nil sg). apply hdr_rel_finish; [left; reflexivity|exact Hr].
+  - destruct Hc as [E|(Hx & Hn & bb & Es)].
+    + destruct (hvals sb H_CT) eqn:Eb.
+      * left. rewrite (finish_some _ _ _ Eb). congruence.
+      * right. right. split; [reflexivity|exact E].
+    + right. left. split; [exact Hx|]. exists bb. exact Es.
+  - rewrite <- Hce. apply hget_congr, finish_other, CE_ne_CT.
+Qed.
+
 Theorem handler_rel h0 accept ae ops :
+  (x = false -> sniff_region h0 accept ae ops = false) ->
   res_rel (handler sniff ctm h0 accept ae ops) (bare sniff h0 ops).
 Proof.
-  unfold handler, handler_core, bare. destruct (accepts_gzip accept ae).
-  - pose proof (sim_run ops _ _ (sim_init h0)) as (Hp & Hc & Hi & H).
+  intros Hreg. unfold handler, handler_core, bare. unfold sniff_region in Hreg.
+  destruct (accepts_gzip accept ae).
+  - assert (Hs : scan_ok (mkG None [] false (rec_new (hadd h0 H_VARY H_AE))) (rec_new h0) ops).
+    { intros Hx _. cbn [rec_new r_hdr]. apply (Hreg Hx). }
+    pose proof (sim_run ops _ _ (sim_init h0) Hs) as (Hp & Hc & Hi & H).
     unfold grw_result, rec_result, res_rel. cbn [o_code o_hdr o_plain o_fed o_panic o_info].
     destruct (g_sel (grw_run ops _)) as [[|]|].
-    + destruct H as (H1 & H2 & H3 & H4 & H5 & H6 & H7 & H8 & H9 & H10). rewrite H1, H2.
-      repeat split; auto; try apply H5.
-    + destruct H as (H1 & H2 & H3 & H4 & H5). rewrite H1, H2. repeat split; auto; apply H4.
-    + destruct H as (H1 & H2 & H3 & H4 & H5 & H6). rewrite H2, H3.
-      destruct (rel_to_plain _ _ H6) as [[Ha Hb] Hd]. rewrite H4, H5. repeat split; auto.
+    + destruct H as (H1 & H2 & H3 & H4 & H5). rewrite H1, H2, H3, finish_nil.
+      destruct (finish_gzip _ _ (r_body (rec_run ops (rec_new h0))) H5) as (F1 & F2 & F3).
+      destruct H5 as (_ & _ & G1 & G2 & _ & G3).
+      repeat (split; [first [reflexivity|assumption]|]). assumption.
+    + destruct H as (H1 & H2 & H3 & H4). rewrite H1, H2, H3.
+      destruct (finish_plain _ _ (r_body (rec_run ops (rec_new h0))) H4) as (F1 & F2).
+      repeat (split; [first [reflexivity|assumption]|]). assumption.
+    + destruct H as (H1 & H2 & H3 & H4 & H5 & H6). rewrite H2, H3, H4, H5, !finish_nil.
+      destruct (rel_to_plain _ _ H6) as [Ha Hd].
+      repeat (split; [first [reflexivity|assumption]|]). left. apply (proj1 H6); [intros []|apply CT_ne_VARY].
   - assert (R0 : rsim (rec_new (hadd h0 H_VARY H_AE)) (rec_new h0)).
     { unfold rsim, rec_new. rsimp. repeat split; try reflexivity; try apply hdr_rel_init. constructor. }
     pose proof (rsim_run ops _ _ R0) as (Hw & Hc & Hb & Hi & Hh).
     unfold rec_result, res_rel. cbn [o_code o_hdr o_plain o_fed o_panic o_info].
-    rewrite <- Hw. destruct (r_wrote (rec_run ops (rec_new (hadd h0 H_VARY H_AE))));
-      destruct (rel_to_plain _ _ Hh) as [[Ha Hb'] Hd]; repeat split; auto.
+    rewrite <- Hw, Hb.
+    assert (Hf : hdr_rel [] (finish_hdr (if r_wrote (rec_run ops (rec_new (hadd h0 H_VARY H_AE)))
+                                         then r_snap (rec_run ops (rec_new (hadd h0 H_VARY H_AE)))
+                                         else r_hdr (rec_run ops (rec_new (hadd h0 H_VARY H_AE))))
+                                        (r_body (rec_run ops (rec_new h0))))
+                            (finish_hdr (if r_wrote (rec_run ops (rec_new (hadd h0 H_VARY H_AE)))
+                                         then r_snap (rec_run ops (rec_new h0))
+                                         else r_hdr (rec_run ops (rec_new h0)))
+                                        (r_body (rec_run ops (rec_new h0))))).
+    { apply hdr_rel_finish_exact.
+      destruct (r_wrote (rec_run ops (rec_new (hadd h0 H_VARY H_AE)))); exact Hh. }
+    repeat (split; [first [reflexivity|assumption]|]). split.
+    + eapply hdr_rel_weaken; [|exact Hf]. intros k [].
+    + left. apply (proj1 Hf); [intros []|apply CT_ne_VARY].
 Qed.
 
 (* the decision is taken once: after it, selection, status and header snapshot are frozen *)
@@ -495,32 +617,53 @@ Proof.
   apply orb_true_iff in Hc as [Hc|Hc]; apply N.eqb_eq in Hc; subst c; reflexivity.
 Qed.
 
-(* an element the code accepts is a gzip / x-gzip entry whose weight is not zero in the RFC reading *)
-Lemma elem_ok_coding e : gzip_elem_ok e = true ->
+Lemma split_nonempty s c : split_byte s c <> [].
+Proof.
+  destruct s as [|x s]; cbn [split_byte]; [discriminate|].
+  destruct (x =? c); [discriminate|]. destruct (split_byte s c); discriminate.
+Qed.
+
+Lemma split_single s c : (length (split_byte s c) < 2)%nat -> split_byte s c = [s].
+Proof.
+  induction s as [|x s IH]; cbn [split_byte]; [reflexivity|].
+  destruct (x =? c).
+  - cbn [length]. pose proof (split_nonempty s c). destruct (split_byte s c); [congruence|cbn [length]; lia].
+  - destruct (split_byte s c) as [|w ws] eqn:E; [exfalso; exact (split_nonempty s c E)|].
+    cbn [length]. intros H. destruct ws; [|cbn [length] in H; lia].
+    assert (W : [w] = [s]) by (apply IH; cbn [length]; lia).
+    injection W as ->. reflexivity.
+Qed.
+
+Lemma existsb_false {A} (f : A -> bool) l a : existsb f l = false -> In a l -> f a = false.
+Proof.
+  intros H Hin. destruct (f a) eqn:E; [|reflexivity].
+  rewrite <- H. symmetry. apply existsb_exists. exists a. auto.
+Qed.
+
+(* an element the code accepts and that is outside region 1 is a gzip / x-gzip entry whose weight is
+   not zero in the RFC reading *)
+Lemma elem_ok_coding e : gzip_elem_ok e = true -> q0_ext_elem e = false ->
   is_gzip_name (fst (coding e)) = true /\ snd (coding e) = true.
 Proof.
-  unfold gzip_elem_ok, coding. destruct (cut_byte e 59) as [name params]. cbn [fst snd].
-  intros H. apply andb_true_iff in H as [Hn Hw]. split; [exact Hn|].
-  unfold strict_weight. destruct (trim_space params) as [|c [|d v]]; try reflexivity.
-  destruct (((c =? 113) || (c =? 81)) && (d =? 61) && negb (existsb (N.eqb 59) v)) eqn:Ec; [|reflexivity].
-  destruct (q_zero v) eqn:Ez; [exfalso|reflexivity].
-  apply andb_true_iff in Ec as [Ec _]. apply andb_true_iff in Ec as [Ec Ed].
-  apply N.eqb_eq in Ed; subst d.
-  destruct (q_zero_zero_dot v Ez) as [Hz Hne].
-  assert (Hl : lower (c :: 61 :: v) = 113 :: 61 :: v).
-  { cbn [lower map]. fold (lower v). rewrite (zero_dot_lower v Hz).
-    apply orb_true_iff in Ec as [Ec|Ec]; apply N.eqb_eq in Ec; subst c; reflexivity. }
-  rewrite Hl in Hw. unfold zero_weight in Hw. rewrite Hz in Hw.
-  change ((113 =? 113) && (61 =? 61)) with true in Hw.
+  unfold gzip_elem_ok, q0_ext_elem, coding. destruct (cut_byte e 59) as [name params]. cbn [fst snd].
+  intros H Hq. apply andb_true_iff in H as [Hn Hw]. split; [exact Hn|].
+  rewrite Hn in Hq. cbn [andb] in Hq.
+  destruct (weight_zero params) eqn:Ew; [exfalso|reflexivity].
+  rewrite andb_true_r in Hq. apply Nat.leb_gt in Hq.
+  unfold weight_zero in Ew. rewrite (split_single _ _ Hq) in Ew. cbn [existsb] in Ew. rewrite orb_false_r in Ew.
+  unfold param_q_zero in Ew. unfold zero_weight in Hw.
+  destruct (lower (trim_space params)) as [|c [|d v]]; try discriminate.
+  apply andb_true_iff in Ew as [Ew Ez]. rewrite Ew in Hw.
+  destruct (q_zero_zero_dot v Ez) as [Hz Hne]. rewrite Hz in Hw.
   destruct v; [congruence|]. discriminate.
 Qed.
 
-(* acceptsGzip implies the RFC reading, for every request *)
-Lemma accepts_rfc accept ae : accepts_gzip accept ae = true -> rfc_accepts_gzip ae = true.
+(* acceptsGzip implies the RFC reading outside region 1 *)
+Lemma accepts_rfc accept ae : accepts_gzip accept ae = true -> q0_ext_region ae = false -> rfc_accepts_gzip ae = true.
 Proof.
-  unfold accepts_gzip. destruct (contains (hd [] accept) EVENT_STREAM); [discriminate|].
-  intros Ha. apply existsb_exists in Ha as (e & Hin & Hok).
-  destruct (elem_ok_coding e Hok) as [Hn Hw].
+  unfold accepts_gzip, q0_ext_region. destruct (contains (hd [] accept) EVENT_STREAM); [discriminate|].
+  intros Ha Hq. apply existsb_exists in Ha as (e & Hin & Hok).
+  destruct (elem_ok_coding e Hok (existsb_false _ _ _ Hq Hin)) as [Hn Hw].
   assert (Hin' : In (coding e) (map coding (flat_map (fun v => split_byte v 44) ae))).
   { apply in_map. destruct ae as [|v ae']; cbn [hd] in Hin.
     - cbn in Hin. destruct Hin as [<-|[]]. vm_compute in Hok. discriminate.
@@ -531,6 +674,14 @@ Proof.
   rewrite E1. apply existsb_exists. exists (coding e). split; [exact Hin'|]. rewrite Hn, Hw. reflexivity.
 Qed.
 
+Lemma not_hidden_all_empty h : hget h H_CE = [] -> ce_hidden (ce_values h) = false -> not_encoded h = true.
+Proof.
+  unfold hget, not_encoded, ce_values, ce_hidden. destruct (hvals h H_CE) as [[|v rest]|]; intros E H; try reflexivity.
+  subst v. cbn [forallb]. change (beq [] []) with true in *. cbn [andb] in *.
+  induction rest as [|y rest IH]; [reflexivity|]. cbn [existsb forallb] in *.
+  apply orb_false_iff in H as [Hy Hr]. apply negb_false_iff in Hy. rewrite Hy. exact (IH Hr).
+Qed.
+
 (* ================= the clauses of C17, in their final form ================= *)
 Section Clauses.
 Variable sniff : str -> str.
@@ -539,67 +690,138 @@ Variables (h0 : hdr) (accept ae : list str) (ops : list op).
 Let res := handler sniff ctm h0 accept ae ops.
 Let up := bare sniff h0 ops.
 
+(* the relation that holds for every call sequence *)
+Lemma handler_rel_all : res_rel sniff ctm true res up.
+Proof. apply handler_rel. intros E. discriminate E. Qed.
+
 Lemma bare_plain : o_plain up = written ops.
 Proof.
   unfold up, bare, rec_result. cbn [o_plain]. rewrite rec_run_body. reflexivity.
 Qed.
 
-Lemma status_preserved : o_code res = o_code up.
-Proof. apply (handler_rel sniff ctm h0 accept ae ops). Qed.
+(* [valid_codes] is the modelled domain (net/http panics on other codes; 101 is final for the server) *)
+Lemma status_preserved : valid_codes ops = true -> o_code res = o_code up.
+Proof. intros _. apply handler_rel_all. Qed.
 
-Lemma never_panics : o_panic res = false.
-Proof. apply (handler_rel sniff ctm h0 accept ae ops). Qed.
+Lemma never_panics : valid_codes ops = true -> o_panic res = false.
+Proof. intros _. apply handler_rel_all. Qed.
 
 Lemma informational_preserved : info_rel (o_info res) (o_info up).
-Proof. apply (handler_rel sniff ctm h0 accept ae ops). Qed.
+Proof. apply handler_rel_all. Qed.
 
 Lemma compressed_only_if f : o_fed res = Some f ->
   accepts_gzip accept ae = true /\ ctm (hget (o_hdr res) H_CT) = true /\ hget (o_hdr up) H_CE = [].
 Proof.
-  intros Hf. pose proof (handler_rel sniff ctm h0 accept ae ops) as (_ & _ & _ & H).
-  fold res up in H. rewrite Hf in H. split; [|split; apply H].
+  intros Hf. pose proof handler_rel_all as (_ & _ & _ & H).
+  rewrite Hf in H. split; [|split; apply H].
   unfold res, handler, handler_core in Hf. destruct (accepts_gzip accept ae); [reflexivity|].
   unfold rec_result in Hf. cbn [o_fed] in Hf. discriminate.
+Qed.
+
+(* "not already encoded" in full -- every upstream Content-Encoding value is empty -- outside region 3 *)
+Lemma compressed_only_if_not_encoded_on_domain f : o_fed res = Some f ->
+  ce_hidden (ce_values (o_hdr up)) = false -> not_encoded (o_hdr up) = true.
+Proof.
+  intros Hf Hh. destruct (compressed_only_if f Hf) as (_ & _ & Hce). exact (not_hidden_all_empty _ Hce Hh).
 Qed.
 
 Lemma gzip_labelled_no_length f : o_fed res = Some f ->
   hvals (o_hdr res) H_CE = Some [GZIP] /\ hvals (o_hdr res) H_CL = None.
 Proof.
-  intros Hf. pose proof (handler_rel sniff ctm h0 accept ae ops) as (_ & _ & _ & H).
-  fold res up in H. rewrite Hf in H. split; apply H.
+  intros Hf. pose proof handler_rel_all as (_ & _ & _ & H).
+  rewrite Hf in H. split; apply H.
 Qed.
 
 Lemma gunzip_body_eq_writes (gz : str -> str) (gunzip : str -> option str) f :
   (forall b, gunzip (gz b) = Some b) ->
   o_fed res = Some f -> gunzip (body_of gz res) = Some (written ops) /\ o_plain up = written ops.
 Proof.
-  intros Hgz Hf. pose proof (handler_rel sniff ctm h0 accept ae ops) as (_ & _ & _ & H).
-  fold res up in H. rewrite Hf in H. destruct H as (Hp & Hfu & _).
+  intros Hgz Hf. pose proof handler_rel_all as (_ & _ & _ & H).
+  rewrite Hf in H. destruct H as (Hp & Hfu & _).
   unfold body_of. rewrite Hp, Hf. cbn [app]. rewrite Hgz, Hfu, bare_plain. auto.
 Qed.
 
+(* every call sequence: body exact; headers the upstream's apart from Vary and a Content-Type the handler sniffed *)
 Lemma identity_otherwise (gz : str -> str) : o_fed res = None ->
   body_of gz res = written ops
-  /\ hdr_rel [H_CT] (o_hdr res) (o_hdr up) /\ ct_rel sniff (o_hdr res) (o_hdr up).
+  /\ hdr_rel [H_CT] (o_hdr res) (o_hdr up) /\ ct_res sniff true false (o_hdr res) (o_hdr up).
 Proof.
-  intros Hf. pose proof (handler_rel sniff ctm h0 accept ae ops) as (_ & _ & _ & H).
-  fold res up in H. rewrite Hf in H. destruct H as (Hp & Hr & Hc).
+  intros Hf. pose proof handler_rel_all as (_ & _ & _ & H).
+  rewrite Hf in H. destruct H as (Hp & Hr & Hc).
   unfold body_of. rewrite Hf, app_nil_r, Hp, bare_plain. auto.
 Qed.
 
-Lemma compressed_headers f : o_fed res = Some f ->
-  hdr_rel [H_CT; H_CE; H_CL] (o_hdr res) (o_hdr up) /\ ct_rel sniff (o_hdr res) (o_hdr up).
+(* outside region 2: EVERY header is the upstream's (as net/http delivers it), Vary apart *)
+Lemma identity_headers_exact (gz : str -> str) : o_fed res = None ->
+  sniff_region h0 accept ae ops = false ->
+  body_of gz res = written ops /\ hdr_rel [] (o_hdr res) (o_hdr up).
 Proof.
-  intros Hf. pose proof (handler_rel sniff ctm h0 accept ae ops) as (_ & _ & _ & H).
-  fold res up in H. rewrite Hf in H. split; apply H.
+  intros Hf Hreg.
+  pose proof (handler_rel sniff ctm false h0 accept ae ops (fun _ => Hreg)) as (_ & _ & _ & H).
+  fold res up in H. rewrite Hf in H. destruct H as (Hp & Hr & Hc).
+  split; [unfold body_of; rewrite Hf, app_nil_r, Hp, bare_plain; reflexivity|].
+  assert (E : hvals (o_hdr res) H_CT = hvals (o_hdr up) H_CT).
+  { destruct Hc as [E|[(F & _)|(F & _)]]; [exact E|discriminate F|discriminate F]. }
+  split; [|apply Hr]. intros k _ Hv. destruct (beq H_CT k) eqn:Ek.
+  - apply beq_eq in Ek; subst k. exact E.
+  - apply beq_neq in Ek. apply (proj1 Hr); [|exact Hv]. cbn [In]. intros [F|[]]. exact (Ek F).
 Qed.
 
-(* against the RFC's reading of Accept-Encoding: every request (no region left after bfb8a14) *)
-Lemma compressed_only_if_rfc_on_domain f : o_fed res = Some f -> rfc_accepts_gzip ae = true.
+Lemma compressed_headers f : o_fed res = Some f ->
+  hdr_rel [H_CT; H_CE; H_CL] (o_hdr res) (o_hdr up) /\ ct_res sniff true true (o_hdr res) (o_hdr up).
 Proof.
-  intros Hf. destruct (compressed_only_if f Hf) as (Ha & _). exact (accepts_rfc accept ae Ha).
+  intros Hf. pose proof handler_rel_all as (_ & _ & _ & H).
+  rewrite Hf in H. split; apply H.
 Qed.
+
+(* against the RFC's reading of Accept-Encoding, outside region 1 *)
+Lemma compressed_only_if_rfc_on_domain f : o_fed res = Some f ->
+  q0_ext_region ae = false -> rfc_accepts_gzip ae = true.
+Proof.
+  intros Hf Hq. destruct (compressed_only_if f Hf) as (Ha & _). exact (accepts_rfc accept ae Ha Hq).
+Qed.
+
+(* mechanism lemma (definitional in the model, tied to the code by the abort classes of the harness):
+   a panicking inner handler gets the response of a normal return so far, and the panic is not swallowed *)
+Lemma abort_not_swallowed abort :
+  s_propagated (serve sniff ctm h0 accept ae ops abort) = abort
+  /\ s_res (serve sniff ctm h0 accept ae ops abort) = res.
+Proof. split; reflexivity. Qed.
 End Clauses.
+
+(* F-C17-3: an accepted request, upstream "Content-Encoding: br" without Content-Type, not compressed:
+   the response carries a Content-Type the upstream never sent and net/http alone would not add;
+   and without any encoding: a type sniffed from the first chunk instead of the body's start *)
+Lemma sniffed_type_refuted : forall ctm,
+  let sniff := fun b : str => if beq b (bs "<") then bs "text/plain" else bs "text/html" in
+  let ops1 := [SetHeader H_CE (bs "br"); Write (bs "BROTLI")] in
+  let ops2 := [Write (bs "<"); Write (bs "html>")] in
+  sniff_region [] [] [bs "gzip"] ops1 = true
+  /\ o_fed (handler sniff (fun _ => false) [] [] [bs "gzip"] ops1) = None
+  /\ hvals (o_hdr (handler sniff ctm [] [] [bs "gzip"] ops1)) H_CT = Some [bs "text/html"]
+  /\ hvals (o_hdr (bare sniff [] ops1)) H_CT = None
+  /\ o_fed (handler sniff (fun _ => false) [] [] [bs "gzip"] ops2) = None
+  /\ hvals (o_hdr (handler sniff (fun _ => false) [] [] [bs "gzip"] ops2)) H_CT = Some [bs "text/plain"]
+  /\ hvals (o_hdr (bare sniff [] ops2)) H_CT = Some [bs "text/html"].
+Proof. intros ctm. vm_compute. repeat split; reflexivity. Qed.
+
+(* F-C17-4: upstream Content-Encoding: ["", "br"] -- compressed again and the br label is lost *)
+Lemma ce_first_empty_refuted : forall sniff,
+  let ops := [AddHeader H_CE []; AddHeader H_CE (bs "br"); SetHeader H_CT (bs "text/html"); Write (bs "BROTLI")] in
+  let res := handler sniff (fun _ => true) [] [] [bs "gzip"] ops in
+  ce_hidden (ce_values (o_hdr (bare sniff [] ops))) = true
+  /\ not_encoded (o_hdr (bare sniff [] ops)) = false
+  /\ o_fed res = Some (bs "BROTLI") /\ hvals (o_hdr res) H_CE = Some [GZIP].
+Proof. intros sniff. vm_compute. repeat split; reflexivity. Qed.
+
+(* F-C17-5: a zero weight followed / preceded by an extension parameter is not recognised *)
+Lemma accept_q0_ext_refuted : forall sniff,
+  let ops := [SetHeader H_CT (bs "text/html"); Write (bs "hello")] in
+  rfc_accepts_gzip [bs "gzip;q=0;x=1"] = false /\ q0_ext_region [bs "gzip;q=0;x=1"] = true
+  /\ o_fed (handler sniff (fun _ => true) [] [] [bs "gzip;q=0;x=1"] ops) = Some (bs "hello")
+  /\ rfc_accepts_gzip [bs "deflate, gzip;x=1;Q=0.0"] = false /\ q0_ext_region [bs "deflate, gzip;x=1;Q=0.0"] = true
+  /\ o_fed (handler sniff (fun _ => true) [] [] [bs "deflate, gzip;x=1;Q=0.0"] ops) = Some (bs "hello").
+Proof. intros sniff. vm_compute. repeat split; reflexivity. Qed.
 
 (* before commit 7cff601: "gzip;q=0" -- the client refuses gzip, the handler compressed anyway *)
 Lemma accept_q0_refuted : forall sniff, exists ae ops f,
@@ -617,7 +839,7 @@ Example q0_repaired :
     ["gzip;q=0"; "gzip; q=0.0"; "gzip ; q=0"; "identity;q=1, gzip;q=0"; "deflate, gzip;q=0.000"; "gzip;q=0."; "x-gzip;q=0";
      "gzip;Q=0"; "gzip; Q=0.0"; "deflate, gzip;Q=0"; "Gzip;q=0"; "notgzip2"; "deflate"; ""]%string = true
   /\ forallb (fun v => accepts_gzip [] [bs v])
-    ["gzip"; "GZIP"; "X-GZIP"; " gzip "; "deflate, gzip;q=0.5"; "gzip;q=0, x-gzip"; "gzip;q=0;x=1"]%string = true.
+    ["gzip"; "GZIP"; "X-GZIP"; " gzip "; "deflate, gzip;q=0.5"; "gzip;q=0, x-gzip"]%string = true.
 Proof. vm_compute. split; reflexivity. Qed.
 
 (* ... between commits 7cff601 and bfb8a14 two kinds of refusal were still missed: a zero weight
@@ -728,7 +950,7 @@ Corollary pool_independence_thread sched pool ts i ops g r t :
   nth_error ts i = Some (mkH ops g None) ->
   nth_error (snd (sys_run sniff ctm reset sched (pool, ts))) i = Some t ->
   h_done t = Some r ->
-  r = grw_result (grw_run sniff ctm ops g).
+  r = grw_result sniff (grw_run sniff ctm ops g).
 Proof.
   intros H0 H1 Hd. pose proof (pool_independence sched (pool, ts)) as H. cbn [snd] in H.
   apply (f_equal (fun l => nth_error l i)) in H. rewrite !nth_error_map, H0, H1 in H.
